@@ -100,6 +100,19 @@ def run(ctx):
                 ctx.ob("R17.welcome", "make_server builds welcome from the configured notices",
                        ok, e, bad)
     ctx.require("R17.welcome", nw, 1, "Server constructions reached from makeService")
+    # -- ping/pong
+    hp = handler_for(model, "ping")
+    npong = 0
+    for p in handler_paths(model, hp):
+        for e, _ in all_events(p, ("send",)):
+            if frame_type(e) == "pong":
+                npong += 1
+                v = (frame_fields(e) or {}).get("pong")
+                ok = v is not None and v[0] == "sub" and v[2] == ("const", "ping") and \
+                    is_client_value(v[1])
+                ctx.ob("R17.env", "pong echoes the ping value", ok, e,
+                       "" if ok else "pong carries %s" % show(v)[:50])
+    ctx.require("R17.env", npong, 1, "pong frames")
     # -- ack ordering
     nack = 0
     for p in paths:
@@ -350,7 +363,7 @@ def run(ctx):
         cls = p.outcome.cls
         rs = [e for e, _ in all_events(p, ("raise",))]
         r = rs[-1] if rs else None
-        if h == handler_for(model, "allocate") and cls in (
+        if h == handler_for(model, "allocate") and guard_ok and cls in (
                 "CrowdedError", "ReclaimedError") and _nameplate_found(p):
             ctx.note("allocate -> %s on a path where the candidate nameplate already has a "
                      "row: infeasible when the allocator's candidate is absent from the "
@@ -361,9 +374,15 @@ def run(ctx):
                        "(decided by C04 R04.src/R04.guard)")
             continue
         nesc += 1
+        extra = ""
+        if h == handler_for(model, "allocate") and not guard_ok and cls in (
+                "CrowdedError", "ReclaimedError"):
+            extra = (" (the allocator's candidate is not proved absent from the app's "
+                     "nameplates -- see C04 R04.src/R04.guard -- so claiming it can be "
+                     "refused)")
         ctx.ob("R17.escape", "%s lets %s escape (%s)" % (h, cls, construct_of(r) if r else "?"),
                False, r or "", "an exception other than the protocol Error leaves the "
-               "handler: no answer is sent and Autobahn sees an internal error",
+               "handler: no answer is sent and Autobahn sees an internal error" + extra,
                render_path(p.events))
     e3 = e3mod.get(model)
     for f in e3.may_raise():
